@@ -238,6 +238,35 @@ theorem rank_default (c : Config) (r : Resolved) (h : prepare c = .ok r) :
     subst h2
     simpa using h5
 
+/-- An integer rank given as a NumPy / JAX integer scalar (`rank=numpy.int64(k)`, `numpy.int32(k)`, a 0-d integer
+    array) is the integer rank `k`: the validated rank, the inferred type (`compute_gp_type`), the verdict of
+    `validate_params` (so `compute_L`), the resolved triple and the whole outcome (type, shape of `L`, predictor
+    family, refusal) are those of the Python int `k`.  (Before fix 4604925 the scalar became the float `k.0`,
+    i.e. "no rank reduction" for every `k >= 1`.) -/
+theorem numpy_integer_rank_is_integer_rank (k : Int) :
+    validateRankOpt (.npInt k) = validateRankOpt (.int k) ∧
+    (∀ nl n, computeGpType nl (.npInt k) n = computeGpType nl (.int k) n) ∧
+    (∀ gp n nl lm, validateParamsPublic (.npInt k) gp n nl lm = validateParamsPublic (.int k) gp n nl lm) ∧
+    (∀ c : Config, prepare { c with rank := .npInt k } = prepare { c with rank := .int k }) ∧
+    (∀ c : Config, resolve { c with rank := .npInt k } = resolve { c with rank := .int k }) := by
+  refine ⟨rfl, fun _ _ => rfl, fun _ _ _ _ => rfl, fun _ => rfl, ?_⟩
+  rintro ⟨est, n, nl, lm, rank, gp, unc, opt, kept, sigma⟩
+  cases est <;> rfl
+
+/-- … in particular the type inferred from it is a Nyström type exactly when `0 < k <` bound (cells, resp.
+    landmarks), and never because of `k.0 >= 1.0`. -/
+theorem numpy_integer_rank_default_type (c : Config) (k : Int) (r : Resolved)
+    (h : prepare { c with rank := .npInt k } = .ok r) :
+    r.rank = .int k := by
+  rw [(numpy_integer_rank_is_integer_rank k).2.2.2.1 c] at h
+  exact (rank_default _ r h).2.1 k rfl
+
+example :
+    resolve {
+      est := .density, n := 12, nLandmarks := none, landmarks := none, rank := .npInt 3,
+      gpType := .none, withUnc := false, opt := .adam, kept := 3 }
+      = .ok .fullNystroem 12 3 .full := by decide
+
 /-- A Nyström type means the DOCUMENTED rank range: fractional `0 < q < 1` or an integer
     `0 < k <` (number of cells, resp. landmarks).  (Full strength since negative ranks are refused.) -/
 theorem rules_nystroem_documented (c : Config) (r : Resolved) (h : prepare c = .ok r)
